@@ -373,12 +373,12 @@ Qed.
 Lemma push_step data w u w' h L gq go gr v names : try_push data w = Ok (u, w') ->
   NInv w h L -> anch3 w L gq go gr -> vec_ok (w_buf w) (w_cursor w) L v names ->
   NInv w' h L /\ anch3 w' L gq go gr /\ vec_ok (w_buf w') (w_cursor w') L v names /\
-  w_cursor w' = w_cursor w + length data /\ ext (w_cursor w) w w'.
+  w_cursor w' = w_cursor w + length data /\ ext (w_cursor w) w w' /\ w_qname w' = w_qname w.
 Proof.
   intros E Hi A V.
   destruct (try_push_ext (w_cursor w) _ _ _ _ E (le_n _)) as [X [Sd [Hcur [Hsl Hag]]]].
   split; [eapply NInv_try_push; eauto|]. split; [eapply anch3_ext; eauto|].
-  split; [eapply vec_mono; eauto; lia|]. auto.
+  split; [eapply vec_mono; eauto; lia|]. split; auto. split; auto. apply Sd.
 Qed.
 
 (* ---------------------------------------------------------------- add_rr *)
@@ -391,7 +391,7 @@ Definition rr_post (owner : wname) (cts : list ctype) (rd : bytes) (names : list
     exists L', grew w w' L L' /\ NInv w' (length (w_buf w')) L' /\
       anch3 w' L' gq (Some owner) (lastn (rd_names cts rd) gr) /\
       vec_ok (w_buf w') (w_cursor w') L' v' (names ++ rd_names cts rd) /\ vsome v' = vsome v /\
-      w_cursor w' <= w_cursor w + length (nm_wire owner) + 10 + length rd
+      w_cursor w' <= w_cursor w + length (nm_wire owner) + 10 + length rd /\ w_qname w' = w_qname w
   | Err (e, w') =>
     (e = Truncation /\ w_avail w < w_cursor w + length (nm_wire owner) + 10 + length rd) \/
     (e = InvalidRdata /\ cts <> [])
@@ -424,27 +424,28 @@ Proof.
   assert (Hc1 : w_cursor (set_mro w1 pr) = w_cursor w1) by reflexivity.
   assert (Hav1 : w_avail (set_mro w1 pr) = w_avail w1) by reflexivity.
   assert (Hl1 : w_buf (set_mro w1 pr) = w_buf w1) by reflexivity.
-  generalize dependent (set_mro w1 pr). intros w1' Hi1' A1 V1 Hc1 Hav1 Hl1.
+  assert (Hq1 : w_qname (set_mro w1 pr) = w_qname w) by (simpl; apply Sd).
+  generalize dependent (set_mro w1 pr). intros w1' Hi1' A1 V1 Hc1 Hav1 Hl1 Hq1.
   pose proof (x_av _ _ _ X) as Hav0. pose proof (x_cur _ _ _ X) as Hcur0.
   destruct (try_push_u16 ty w1') as [[u2 w2]|[e w2]|] eqn:E2; cbn [bind].
   3:{ destruct Hi1' as [[N1 N2] _ _ _ _ _ _]. eapply try_push_no_panic; eauto. }
   2:{ left. apply try_push_err in E2 as E'. destruct E' as [-> ->]. split; auto.
       pose proof (try_push_err_size _ _ _ _ (proj1 (ni_nb _ _ _ Hi1')) E2) as K.
       unfold be16 in K. simpl length in K. lia. }
-  destruct (push_step _ _ _ _ _ _ _ _ _ _ _ E2 Hi1' A1 V1) as [Hi2 [A2 [V2 [Hc2 X2]]]].
+  destruct (push_step _ _ _ _ _ _ _ _ _ _ _ E2 Hi1' A1 V1) as [Hi2 [A2 [V2 [Hc2 [X2 Q2]]]]].
   destruct (try_push_u16 cl w2) as [[u3 w3]|[e w3]|] eqn:E3; cbn [bind].
   3:{ destruct Hi2 as [[N1 N2] _ _ _ _ _ _]. eapply try_push_no_panic; eauto. }
   2:{ left. apply try_push_err in E3 as E'. destruct E' as [-> ->]. split; auto.
       pose proof (try_push_err_size _ _ _ _ (proj1 (ni_nb _ _ _ Hi2)) E3) as K.
       unfold be16 in K, Hc2. simpl length in K, Hc2. rewrite (x_av _ _ _ X2) in K. lia. }
-  destruct (push_step _ _ _ _ _ _ _ _ _ _ _ E3 Hi2 A2 V2) as [Hi3 [A3 [V3 [Hc3 X3]]]].
+  destruct (push_step _ _ _ _ _ _ _ _ _ _ _ E3 Hi2 A2 V2) as [Hi3 [A3 [V3 [Hc3 [X3 Q3]]]]].
   destruct (try_push_u32 ttl w3) as [[u4 w4]|[e w4]|] eqn:E4; cbn [bind].
   3:{ destruct Hi3 as [[N1 N2] _ _ _ _ _ _]. eapply try_push_no_panic; eauto. }
   2:{ left. apply try_push_err in E4 as E'. destruct E' as [-> ->]. split; auto.
       pose proof (try_push_err_size _ _ _ _ (proj1 (ni_nb _ _ _ Hi3)) E4) as K.
       unfold be16 in Hc2, Hc3. unfold be32 in K. simpl length in K, Hc2, Hc3.
       rewrite (x_av _ _ _ X3), (x_av _ _ _ X2) in K. lia. }
-  destruct (push_step _ _ _ _ _ _ _ _ _ _ _ E4 Hi3 A3 V3) as [Hi4 [A4 [V4 [Hc4 X4]]]].
+  destruct (push_step _ _ _ _ _ _ _ _ _ _ _ E4 Hi3 A3 V3) as [Hi4 [A4 [V4 [Hc4 [X4 Q4]]]]].
   unfold be16 in Hc2, Hc3. unfold be32 in Hc4. simpl length in Hc2, Hc3, Hc4.
   assert (Hav4 : w_avail w4 = w_avail w1').
   { rewrite (x_av _ _ _ X4), (x_av _ _ _ X3), (x_av _ _ _ X2). reflexivity. }
@@ -498,7 +499,8 @@ Proof.
     repeat split; eapply anch_transfer; eauto.
     - eapply anch_mono; eauto. apply G6.
     - eapply anch_mono; eauto. apply G6. }
-  split; [simpl; eapply vec_transfer; eauto|]. split; auto. simpl. lia.
+  split; [simpl; eapply vec_transfer; eauto|]. split; auto. split; [simpl; lia|].
+  simpl. congruence.
 Qed.
 
 (* ---------------------------------------------------------------- add_rrset *)
@@ -526,7 +528,8 @@ Definition rrset_post (owner : wname) (cts : list ctype) (rds : list bytes) (nam
     exists L', grew w w' L L' /\ NInv w' (length (w_buf w')) L' /\
       anch3 w' L' gq (match rds with [] => go | _ => Some owner end) (lastn (rds_names cts rds) gr) /\
       vec_ok (w_buf w') (w_cursor w') L' v' (names ++ rds_names cts rds) /\ vsome v' = vsome v /\
-      k' = k + length rds /\ w_cursor w' <= w_cursor w + rds_size owner rds /\ w_cursor w <= w_cursor w'
+      k' = k + length rds /\ w_cursor w' <= w_cursor w + rds_size owner rds /\ w_cursor w <= w_cursor w' /\
+      w_qname w' = w_qname w
   | Err (e, w') =>
     (e = Truncation /\ w_avail w < w_cursor w + rds_size owner rds) \/ (e = InvalidRdata /\ cts <> [])
   | Panic => False
@@ -540,27 +543,27 @@ Lemma rrset_L owner ty cl ttl gq : forall rds h v k w L names go gr,
 Proof.
   induction rds as [|rd rest IH]; intros h v k w L names go gr Hi A V Hwf Hrds Hh HhL.
   - simpl. exists L. rewrite app_nil_r. split; [apply grew_refl|]. split; [exact Hi|].
-    split; [exact A|]. split; [exact V|]. split; [reflexivity|]. split; [lia|]. split; lia.
+    split; [exact A|]. split; [exact V|]. split; [reflexivity|]. split; [lia|]. split; [lia|]. split; [lia|reflexivity].
   - inversion Hrds as [|? ? Hrd Hrest]; subst. cbn [add_rrset_loop].
     pose proof (add_rr_L h owner ty cl ttl rd v w L names gq go gr Hi A V Hwf Hrd Hh HhL) as P.
     assert (Hpre : pre (w_cursor w) w) by (split; [lia|apply Hi]).
     pose proof (frame_add_rr (w_cursor w) h owner ty cl ttl rd v w Hpre) as F.
     destruct (add_rr h owner ty cl ttl rd v w) as [[v1 w1]|[e w1]|]; simpl in P, F; cbn [bind]; auto.
     2:{ simpl. destruct P as [[-> Hs]|[-> Hs]]; [left|right; auto]. split; auto. lia. }
-    destruct P as [L1 [G1 [Hi1 [A1 [V1 [Vs1 Hc1]]]]]].
+    destruct P as [L1 [G1 [Hi1 [A1 [V1 [Vs1 [Hc1 Hq1]]]]]]].
     specialize (IH HOwner v1 (S k) w1 L1 (names ++ rd_names (component_types cl ty) rd) (Some owner)
                    (lastn (rd_names (component_types cl ty) rd) gr) Hi1 A1 V1 Hwf Hrest
                    (owner_hint_ok _ _ _ _ _ _ Hi1 A1) I).
     unfold rrset_post in IH |- *.
     destruct (add_rrset_loop HOwner owner ty cl ttl rest v1 (S k) w1) as [[[v2 k2] w2]|[e w2]|]; auto.
-    + destruct IH as [L2 [G2 [Hi2 [A2 [V2 [Vs2 [Hk [Hc2 Hm2]]]]]]]].
+    + destruct IH as [L2 [G2 [Hi2 [A2 [V2 [Vs2 [Hk [Hc2 [Hm2 Hq2]]]]]]]]].
       pose proof (x_cur _ _ _ F) as Hm1.
       exists L2. split.
       { apply (grew_trans w w1 w2 L L1 L2); auto. }
       split; [exact Hi2|]. split.
       { cbn [rds_names]. rewrite lastn_app. destruct rest; exact A2. }
       split; [cbn [rds_names]; rewrite app_assoc; exact V2|]. split; [congruence|].
-      split; [simpl; lia|]. split; [simpl; lia|lia].
+      split; [simpl; lia|]. split; [simpl; lia|]. split; [lia|congruence].
     + destruct IH as [[-> Hs]|[-> Hs]]; [left|right; auto]. split; auto.
       rewrite (x_av _ _ _ F) in Hs. simpl. lia.
 Qed.
